@@ -483,6 +483,13 @@ example : ∃ (m : Model (Ext K)) (b : BoundsMap (Ext K)) (d : List (DomVar (Ext
     exact ⟨(haff.cons c hc).notAssert, FG_of_AG (haff.cons c hc).lhs, FG_of_AG (haff.cons c hc).rhs, hdef c hc⟩
   · intro ρ _ n bd hl; simp [lookupB] at hl
 
+/-- non-vacuity with a REAL auxiliary: `min y s.t. c: abs{x} ≤ y`, `x ∈ [-1, 2]`, bounds map `x ∈ [-1, 2]` compiles
+(declaring `$abs_0` and processing its two rows) and satisfies every hypothesis of `c01_partial`. -/
+example : ∃ (m : Model (Ext K)) (b : BoundsMap (Ext K)) (d : List (DomVar (Ext K))) (lm : LinModel (Ext K)),
+    linearizeWith m b d = .ok lm ∧ FragModel true m d ∧ DomRel m d ∧ BoxEnforced b d := by
+  obtain ⟨lm, h⟩ := exAbs_ok (K := K)
+  exact ⟨exAbs, exAbsBounds, exAbs.domain, lm, h, exAbs_hyps.1, exAbs_hyps.2.1, exAbs_hyps.2.2⟩
+
 /-- **Counterexample for the excluded region** (`BoxEnforced` dropped): `max x s.t. c: max{x, 1/2} ≤ 1/2`,
 `x` Boolean, with the bounds map `x ∈ [0, 1/2]` (a tightened Boolean range, as the bounds analysis produced
 before fix 5ec6390): the operand `x` is pruned, the model compiles to the single row `0 ≤ 0`, and `x = 1` is
